@@ -298,6 +298,8 @@ def check_summary_key(rep, ctx):
         if st == "FAILED":
             q.reproduced = True
             rep.traces_validated += 1
+        elif st == "ok":
+            q.status = "inconclusive"       # a shape this check cannot read, and the native witnesses pass: undecided (exit 2), not an alarm
         return
     parts = parse_fmt_template(template)
 
